@@ -24,9 +24,11 @@ Theorem C07_no_undeclared_dependency : forall g c p objs,
 Proof. exact no_spurious_dependency. Qed.
 Print Assumptions C07_no_undeclared_dependency.
 
-(* cloning per producer with branch-specific states; the source keeps no dependants *)
+(* cloning per producer with branch-specific states; the only dependants a source keeps are sources
+   themselves, i.e. inert nodes *)
 Theorem C07_clones_per_producer : forall g i, clones_ok g = true -> i < length g -> gn_clones (gnd g i) <> [] ->
-  gn_children (gnd g i) = [] /\ NoDup (map (fun c => gn_name (gnd g c)) (gn_clones (gnd g i))) /\
+  (forall c objs, In (c, objs) (gn_children (gnd g i)) -> gn_clones (gnd g c) <> []) /\
+  NoDup (map (fun c => gn_name (gnd g c)) (gn_clones (gnd g i))) /\
   forall c1 c2, In c1 (gn_clones (gnd g i)) -> In c2 (gn_clones (gnd g i)) -> c1 <> c2 ->
                 seteqN (clone_states g c1) (clone_states g c2) = false.
 Proof. exact clones_ok_sound. Qed.
